@@ -34,6 +34,10 @@ class Ev:
         return "Ev(%s%s)" % (self.name, ",terminal" if self.is_terminal else "")
 
 
+class EventFault(Exception):
+    pass
+
+
 class EventsOracle:
     def __init__(self, c, max_total=3, max_calls=4, terminal_by=None):
         self.c = c
@@ -44,11 +48,18 @@ class EventsOracle:
         self.terminal_by = terminal_by
         self.system = None
         self.probe_sol = True
+        self.fault_call = None      # index of the detector invocation that raises (an event function failing), once
+        self.faulted = False
 
     def __call__(self, sol_tuple, events, consts, direction, is_terminal, attributes):
         c = self.c
         sol, t_prev, t_next = sol_tuple
         k = len(self.calls)
+        if self.fault_call is not None and k == self.fault_call and not self.faulted:
+            self.faulted = True
+            if self.probe_sol:
+                sol(t_prev + 0.5 * (t_next - t_prev))
+            raise EventFault("event function failed while the events of step %d were being located" % k)
         if k >= self.max_calls:
             from srx import core
             if c.symbolic:
@@ -93,7 +104,15 @@ class EventsOracle:
             same = c.all([c.eq(it.t0, t_prev), c.eq(it.t1, t_next)])
             if (same if isinstance(same, bool) else bool(same)):
                 piece = it
-        self.calls.append(dict(k=k, t_prev=t_prev, t_next=t_next, reported=rep, terminate=terminate, piece=piece,
+        # part A assumes that the dense output it is handed answers queries inside the bracket from the interpolant of THIS step
+        lookup_ok = False
+        if piece is not None:
+            try:
+                idx_ = int(sol.find_interval(t_prev + 0.5 * (t_next - t_prev)))
+                lookup_ok = sol.y_interpolants[idx_] is piece
+            except Exception:
+                lookup_ok = False
+        self.calls.append(dict(k=k, t_prev=t_prev, t_next=t_next, reported=rep, terminate=terminate, piece=piece, lookup_ok=lookup_ok,
                                n_pieces=len(sol.y_interpolants), rows_visible=len(self.system.t) if self.system is not None else None))
         idx = np.array([r["i"] for r in rep], dtype=np.int64)
         roots = c.array([r["root"] for r in rep])
@@ -127,7 +146,8 @@ def build_events(inst):
 
 
 def scenario(c, inst, props):
-    """props: subset of {'C07','C08','C09'} whose assertions are evaluated"""
+    """props: subset of {'C03','C06','C07','C08','C09'} whose assertions are evaluated"""
+    props = set(props)
     import desolver.differential_system as ds
     if c.symbolic:
         c.ackermann = False
@@ -165,8 +185,16 @@ def scenario(c, inst, props):
         cb_calls.append(len(system.t))
     backward = (not infinite) and bool(tf - t0 < 0)
     sgn = -1 if backward else 1
+    oracle.fault_call = inst.get("fault_call")
     with patched(ds, "handle_events", oracle):
         st, r = run(a.integrate, events=events, callback=[cb])
+        if oracle.faulted:
+            # history: the event search of one step raised; the caller simply calls integrate() again with the same events
+            from desolver.exception_types import FailedIntegration
+            for p in props:
+                c.check("%s.event_fault_raises_FailedIntegration" % p.lower(), st == "exc" and isinstance(r, FailedIntegration) and isinstance(r.__cause__, EventFault),
+                        info=repr(r)[:120])
+            st, r = run(a.integrate, events=events, callback=[cb])
     P7, P8, P9 = "c07", "c08", "c09"
     if st != "ok":
         cause = getattr(r, "__cause__", None)
@@ -183,6 +211,27 @@ def scenario(c, inst, props):
     c.note("recorded_events", len(rec))
     c.note("oracle_reports", sum(len(call["reported"]) for call in oracle.calls))
     T = list(a.t)
+    if props & {"C07", "C08"}:
+        c.check("%s.detector_is_handed_the_interpolant_of_the_step_under_examination" % min(props & {"C07", "C08"}).lower(),
+                all(call["piece"] is not None and call["lookup_ok"] for call in oracle.calls), info=dict(calls=[(call["piece"] is not None, call["lookup_ok"]) for call in oracle.calls]))
+    if props & {"C08", "C09"}:
+        # every recorded step was examined by the detector: it lies inside the bracket of some completed detector call (the sub-steps
+        # taken to land on a terminal root lie inside the bracket of the step they replace)
+        cov = []
+        for i in range(len(T) - 1):
+            cov.append(c.any([c.all([c.le(0, (T[i] - call["t_prev"]) * (call["t_next"] - T[i]), 64),
+                                     c.le(0, (T[i + 1] - call["t_prev"]) * (call["t_next"] - T[i + 1]), 64)]) for call in oracle.calls]
+                             ) if oracle.calls else False)
+        c.check("%s.every_recorded_step_was_examined_by_the_detector" % min(props & {"C08", "C09"}).lower(), c.all(cov), info=dict(rows=len(T), calls=len(oracle.calls)))
+    if "C03" in props:
+        # the grid properties of C03 on runs that monitor events (buffer growth inside the event section, re-recorded steps)
+        c.check("c03.events.first_row_is_initial_condition", c.all([c.eq(T[0], t0), _eqv(c, a.y[0], c.array([c.real("y0_%d" % i) for i in range(int(np.prod(shape)))]).reshape(shape))]))
+        c.check("c03.events.paired", len(a.t) == len(a.y))
+        c.check("c03.events.strictly_monotone", c.all([c.lt(0, sgn * (T[i + 1] - T[i])) for i in range(len(T) - 1)]))
+        if not terminated and not infinite:
+            spans.segment_checks(c, "c03.events", a, 0, t0, tf)
+            c.check("c03.events.status_completed", spans.status_ok(a) or oracle.faulted, info=a.integration_status[:60])
+        return
     # ------------------------------------------------------------------ C07: soundness, location, order, uniqueness
     if "C07" in props:
         ok_sound, ok_inside, ok_state = [], [], []
@@ -274,7 +323,8 @@ def scenario(c, inst, props):
                             c.check(P9 + ".continue.returns", False, info=repr(r2) + " / " + repr(cause))
         else:
             if not infinite:
-                c.check(P9 + ".without_terminal_event_status_completed", spans.status_ok(a))
+                if not oracle.faulted:      # (after a failed call the status keeps reporting that failure: not stated otherwise by any property)
+                    c.check(P9 + ".without_terminal_event_status_completed", spans.status_ok(a))
                 c.check(P9 + ".without_terminal_event_reaches_target", c.le(absval(c, T[-1] - tf), 64 * spans.EPS64 * 64))
                 c.check(P9 + ".callbacks_once_per_outer_step", len(cb_calls) == len(oracle.calls) == len(T) - 1, info=dict(cb=len(cb_calls), steps=len(oracle.calls), rows=len(T)))
                 if dense:
